@@ -252,14 +252,21 @@ def rule_R1(ctx, repo, flow):
     ctx.check(ok, "R1", "_split_by_fh:check_equal_time_index", "indices of y and X compared whenever X is given",
               "check_equal_time_index is not called when X is given", ctx.loc(m, sb))
     _raw_data_args(ctx, repo, m, sb, "check_equal_time_index", ("y", "X"), "_split_by_fh")
-    oos = False
-    for n in ast.walk(sb):
-        if isinstance(n, ast.If) and block_always_raises(n.body):
-            src = astq.canon(n.test)
-            if "is_all_out_of_sample" in src and src.startswith("(Not"):
-                oos = True
+    # a relative horizon with in-sample steps is rejected (path condition: relative & not all-out-of-sample -> raise)
+    from ..boolx import atoms_of as _ao3, evaluate as _ev3
+    pcs = PathConditions(sb, Atomizer())
+    ats3 = sorted(_ao3(pcs.raises))
+    rel3 = [a_ for a_ in ats3 if a_.endswith(".is_relative")]
+    oos3 = [a_ for a_ in ats3 if "is_all_out_of_sample" in a_]
+    if len(rel3) == 1 and len(oos3) == 1 and len(ats3) <= 8:
+        from itertools import product as _pr3
+        oth3 = [a_ for a_ in ats3 if a_ not in rel3 + oos3]
+        oos = all(_ev3(pcs.raises, dict(zip(oth3, v_), **{rel3[0]: True, oos3[0]: False})) for v_ in _pr3((False, True), repeat=len(oth3)))
+    else:
+        oos = False if not oos3 else None
     ctx.check(oos, "R1", "_split_by_fh:out-of-sample", "relative in-sample horizons are rejected",
-              "_split_by_fh does not reject in-sample horizons", ctx.loc(m, sb))
+              "_split_by_fh does not reject in-sample horizons" if oos is False else "rejection condition of _split_by_fh not interpretable: %s" % ats3,
+              ctx.loc(m, sb))
     # make_reduction
     must(REDUCE, "make_reduction", ("_check_strategy",), "strategy validated")
     must(REDUCE, "make_reduction", ("_check_scitype",), "scitype validated")
@@ -775,15 +782,18 @@ def rule_R2(ctx, repo):
               "non-monotonic index, empty index unless allow_empty",
               "check_time_index rejection condition: %s (differing assignment / atoms: %s)" % (show(pc.raises), wit), ctx.loc(smod, fn))
     fn = repo.func(VSER, "check_equal_time_index")
+    from ..boolx import atoms_of as _ao4, evaluate as _ev4
+    from itertools import product as _pr4
+    pce = PathConditions(fn, Atomizer())
+    ats4 = sorted(_ao4(pce.raises))
+    eq4 = [a_ for a_ in ats4 if ".equals(" in a_]
     ok = False
-    for n in ast.walk(fn):
-        if isinstance(n, ast.If) and block_always_raises(n.body):
-            t = n.test
-            if isinstance(t, ast.UnaryOp) and isinstance(t.op, ast.Not) and isinstance(t.operand, ast.Call) and astq.call_name(t.operand) == "equals":
-                ok = True
-    loops = [n for n in ast.walk(fn) if isinstance(n, ast.For)]
-    ok = ok and bool(loops)
-    ctx.check(ok, "R2", "check_equal_time_index:predicate", "every further series' index must .equals() the first",
+    if len(eq4) == 1 and len(ats4) <= 8 and any(isinstance(n, (ast.For, ast.While)) for n in ast.walk(fn)):
+        oth4 = [a_ for a_ in ats4 if a_ not in eq4]
+        # never raises while the indices are equal; raises for some loop state when they differ
+        ok = all(not _ev4(pce.raises, dict(zip(oth4, v_), **{eq4[0]: True})) for v_ in _pr4((False, True), repeat=len(oth4))) and \
+            any(_ev4(pce.raises, dict(zip(oth4, v_), **{eq4[0]: False})) for v_ in _pr4((False, True), repeat=len(oth4)))
+    ctx.check(ok, "R2", "check_equal_time_index:rejects-unequal", "every further series' index must .equals() the first",
               "check_equal_time_index does not reject unequal indices for every series", ctx.loc(smod, fn))
     fn = repo.func(VSER, "_check_is_univariate")
     pc = PathConditions(fn, Atomizer({"y": "x"}))
